@@ -229,7 +229,8 @@ class PathEval(object):
     MAXSTATES = 20000
 
     def __init__(self, program, func, env, is_effect=None, pure=PURE, depth=0, fail_value=None, memo=None, maxstates=None, through_effects=False, dirty_paths=False,
-                 call_values=None, markers=None, observe=None, split=None, starts=None, track=None, exact_counters=False, observe_callees=False, callee_effect=None, observe_exit=None):
+                 call_values=None, markers=None, observe=None, split=None, starts=None, track=None, exact_counters=False, observe_callees=False, callee_effect=None, observe_exit=None, fork_hook=None):
+        self.fork_hook = fork_hook         # callback(call node, "fail"|"ok"|"none", env-updates of that outcome, env before): per-outcome facts of a callee
         self.observe_exit = observe_exit   # callback(kind, node or None, env) at every function exit reached ("return" / "end")
         self.callee_effect = callee_effect   # effect predicate used INSIDE evaluated callees (their parameters are not ours); default: is_effect
         self.observe_callees = observe_callees   # also report elements reached inside evaluated callees (helpers)
@@ -581,6 +582,8 @@ class PathEval(object):
             else:
                 is_eff = True
             if o is None:
+                if self.fork_hook is not None:
+                    self.fork_hook(n, "none", env, env)
                 if is_eff:
                     out.terminals.append(("effect", None, err, f.loc(n), False))
                     if not self.through:
@@ -608,6 +611,9 @@ class PathEval(object):
                 e2 = list(flat)[0] if len(flat) == 1 else frozenset(str(x) for x in flat)
                 if e2 is None:
                     e2 = "KEEP"
+                if self.fork_hook is not None:
+                    upd = dict(upd)
+                    self.fork_hook(n, "fail", upd, env)
                 forks.append((upd, e2, bool(is_eff and o["fail_dirty"])))
             if o["has_ok"]:
                 if is_eff and not self.dirty_paths:
@@ -620,6 +626,9 @@ class PathEval(object):
                         # assumption (documented): a pointer-returning function yields NULL only at its literal
                         # NULL returns or by propagating a callee's failure; any other returned pointer is non-NULL
                         upd = {ck: 1}
+                    if self.fork_hook is not None:
+                        upd = dict(upd)
+                        self.fork_hook(n, "ok", upd, env)
                     forks.append((upd, "KEEP", bool(is_eff)))
             if not forks:
                 return "stop"
